@@ -331,3 +331,127 @@ func ReproSelfAssociation() (bool, string) {
 	}
 	return false, "a self-containing association ends with the depth-limit panic and the collator works afterwards"
 }
+
+// ---- deep but legal: nests as deep as the limit allows ----
+
+// DeepKinds are the collection kinds a nest is made of.
+var DeepKinds = []string{"list", "array", "stack", "queue", "catalog", "map", "slice", "gomap"}
+
+// buildNest wraps the leaf in `levels` collections whose kinds cycle through kinds.
+func buildNest(kinds []string, levels int, leaf any) any {
+	v := leaf
+	for l := levels - 1; l >= 0; l-- {
+		h := newHolder(kinds[l%len(kinds)], 0)
+		h.put(v)
+		v = h.val
+	}
+	return v
+}
+
+// DeepCases: every kind alone and every ordered pair of kinds, at every depth
+// 1..16 under the default limit and at the limit itself for custom limits.
+func DeepCases() int { n := len(DeepKinds); return n + n*n }
+
+// RunDeep: a value nested exactly as deep as the collator's limit (GetMaximum
+// levels of collections) is within the documented limit: it compares equal to
+// an independently built twin, unequal to a twin with another leaf, and ranks
+// consistently - no depth-limit panic.  One level more may panic (with the
+// documented message) or work.
+func RunDeep(c *core.Ctx, idx int) {
+	n := len(DeepKinds)
+	var kinds []string
+	if idx < n {
+		kinds = []string{DeepKinds[idx]}
+	} else {
+		k := idx - n
+		kinds = []string{DeepKinds[k/n], DeepKinds[k%n]}
+	}
+	for _, maximum := range []int{0, 1, 2, 3, 5, 9} { // 0 = the default collator
+		coll := age.Collator[any]().Make()
+		if maximum > 0 {
+			coll = age.Collator[any]().MakeWithMaximum(maximum)
+		}
+		limit := coll.GetMaximum()
+		for levels := 1; levels <= limit; levels++ {
+			if maximum == 0 && levels > 3 && levels < limit-2 && levels%4 != 0 {
+				continue // the default limit: shallow, every fourth, and the last three depths
+			}
+			cs := map[string]any{"kinds": kinds, "levels": levels, "maximum": limit}
+			a, b, x := buildNest(kinds, levels, "p"), buildNest(kinds, levels, "p"), buildNest(kinds, levels, "q")
+			var d string
+			func() {
+				defer func() {
+					if e := recover(); e != nil {
+						d = fmt.Sprintf("a value nested %d deep (limit %d) is rejected: %s", levels, limit, trunc(fmt.Sprint(e)))
+					}
+				}()
+				switch {
+				case !coll.CompareValues(a, b):
+					d = "two equal nests compare unequal"
+				case coll.CompareValues(a, x):
+					d = "two nests with different leaves compare equal"
+				case coll.RankValues(a, b) != age.EqualRank:
+					d = "two equal nests do not rank Equal"
+				case coll.RankValues(a, x) != age.LesserRank || coll.RankValues(x, a) != age.GreaterRank:
+					d = "nests with leaves p and q are misordered"
+				}
+			}()
+			if d != "" {
+				c.Violation("deep-legal/"+strings.Join(kinds, ">"), d, cs)
+				return
+			}
+			c.Cover(fmt.Sprintf("deep-legal.depth-%d-of-%d", levels, limit))
+		}
+		// beyond the limit: the documented panic or a correct answer, nothing else
+		a, b := buildNest(kinds, limit+2, "p"), buildNest(kinds, limit+2, "p")
+		var bad string
+		func() {
+			defer func() {
+				if e := recover(); e != nil {
+					msg := fmt.Sprint(e)
+					if _, isRT := e.(runtime.Error); isRT || !strings.Contains(strings.ToLower(msg), "depth") {
+						bad = "a value nested deeper than the limit ends with something other than the depth-limit panic: " + trunc(msg)
+					}
+				}
+			}()
+			if !coll.CompareValues(a, b) {
+				bad = "a value nested deeper than the limit compares unequal to its twin"
+			}
+		}()
+		if bad != "" {
+			c.Violation("deep-beyond/"+strings.Join(kinds, ">"), bad, map[string]any{"kinds": kinds, "levels": limit + 2, "maximum": limit})
+			return
+		}
+	}
+	c.Distinct(core.HashStr("deep" + strings.Join(kinds, ">")))
+	if c.WantSample("deep") {
+		c.Sample("deep", map[string]any{"kinds": kinds})
+	}
+}
+
+// ReproDeepCatalog: catalogs nested exactly as deep as the limit.
+func ReproDeepCatalog() (bool, string) {
+	for _, maximum := range []int{0, 1, 3} {
+		coll := age.Collator[any]().Make()
+		if maximum > 0 {
+			coll = age.Collator[any]().MakeWithMaximum(maximum)
+		}
+		limit := coll.GetMaximum()
+		a, b := buildNest([]string{"catalog"}, limit, "p"), buildNest([]string{"catalog"}, limit, "p")
+		var d string
+		func() {
+			defer func() {
+				if e := recover(); e != nil {
+					d = fmt.Sprintf("catalogs nested %d deep under a limit of %d are rejected: %s", limit, limit, trunc(fmt.Sprint(e)))
+				}
+			}()
+			if !coll.CompareValues(a, b) || coll.RankValues(a, b) != age.EqualRank {
+				d = fmt.Sprintf("catalogs nested %d deep are not equal to their twin", limit)
+			}
+		}()
+		if d != "" {
+			return true, d
+		}
+	}
+	return false, "catalogs nested as deep as the limit compare equal to their twins"
+}
